@@ -891,6 +891,11 @@ func (e *Env) call(n *CNode) Val {
 			cxFail("%s: no message type with this accessor", n.Name)
 		}
 		return Val{t: t, ty: rt}
+	case "onceDone":
+		// onceDone(addr(x.f)): the sync.Once at that address has run its function (ghost flag of the Once.Do model)
+		v := e.expr(n.Args[0])
+		g.regKey("G|$onceDone", "(Array Int Bool)", "ghost")
+		return Val{t: fmt.Sprintf("(select %s %s)", g.get(e.state, "G|$onceDone"), v.t), ty: tBool}
 	case "msgKnown":
 		v := e.expr(n.Args[0])
 		return Val{t: g.msgKnownTerm(v.t), ty: tBool}
